@@ -151,9 +151,52 @@ def validate_runs(prim, runs, invs, workdir, label, is_known=None):
     a violating run, until the remaining runs are accepted."""
     info = PRIMS[prim]
     violations = []
-    remaining = list(range(len(runs)))
+    # runs in which some call went through several critical sections (events sharing `cid`) are
+    # validated one by one in linearization mode: TLC chooses where each such call takes effect
+    multi = [ri for ri in range(len(runs)) if any("cid" in e for e in runs[ri][1])]
+    remaining = [ri for ri in range(len(runs)) if ri not in set(multi)]
     it = 0
     nvalidated = 0
+    if multi:
+        def nd_one(ri):
+            wd = os.path.join(workdir, "%s-nd-%d" % (label, ri))
+            os.makedirs(wd, exist_ok=True)
+            tr = os.path.join(wd, "trace.ndjson")
+            h, evs = runs[ri]
+            with open(tr, "w") as f:
+                f.write(json.dumps(h) + "\n")
+                for e in evs:
+                    f.write(json.dumps(e) + "\n")
+            cfg = os.path.join(wd, "trace.cfg")
+            with open(cfg, "w") as f:
+                f.write("SPECIFICATION TraceSpec\nCONSTANTS\n")
+                for c in info["trace_cfg_consts"]:
+                    if not c.startswith("NDInvs"):
+                        f.write("  %s\n" % c)
+                f.write("  NDInvs = {%s}\n" % ", ".join('"%s"' % i for i in invs))
+                f.write("POSTCONDITION TraceAccepted\nCHECK_DEADLOCK FALSE\nALIAS TraceAlias\n")
+            rc, out = tlc(info["obs_trace"], cfg, wd, workers=1, env_extra={"TRACE": tr}, trace_mode=True, timeout=900)
+            txt = open(out, errors="replace").read()
+            m = re.search(r'"TRACE-REJECTED at line",\s*(\d+)', txt)
+            if m:
+                return ri, int(m.group(1)) - 1
+            if "Error:" in txt or rc != 0:
+                tail = "\n".join(txt.splitlines()[-40:])
+                raise ToolError("trace validation (linearization mode) failed to run (%s):\n%s" % (out, tail))
+            return ri, None
+        import concurrent.futures as _cf
+        for k in range(0, len(multi), 6):
+            with _cf.ThreadPoolExecutor(max_workers=6) as ex:
+                res = list(ex.map(nd_one, multi[k:k + 6]))
+            for ri, evn in res:
+                if evn is None:
+                    nvalidated += 1
+                else:
+                    violations.append({"inv": "+".join(invs) + " (under every choice of the critical section at which multi-section calls take effect)",
+                                       "run": ri, "event": evn})
+            unknown = [x for x in violations if not (is_known and is_known(x))]
+            if len(unknown) >= MAX_VIOLATIONS:
+                return violations[:max(MAX_VIOLATIONS, len(violations) - len(unknown) + MAX_VIOLATIONS)], nvalidated
     while remaining:
         it += 1
         wd = os.path.join(workdir, "%s-%d" % (label, it))
@@ -474,7 +517,7 @@ def run_check(prop_id, tier, seed):
             nviol += 1
             rp = os.path.join(REPLAYS, "%s-%d.ndjson" % (prop_id, nviol))
             hh = dict(h)
-            hh.update({"property": prop_id, "invariant": v["inv"], "origin": origin, "seed": seed})
+            hh.update({"property": prop_id, "invariant": v["inv"], "origin": origin, "check_seed": seed})
             with open(rp, "w") as f:
                 f.write(json.dumps(hh) + "\n")
                 for e in cut:
@@ -547,6 +590,28 @@ def run_replay(prop_id, path):
     shutil.rmtree(work, ignore_errors=True)
     os.makedirs(work)
     out = os.path.join(work, "re-executed.ndjson")
+    if h.get("flavour") == "slock-threads":
+        # a threaded execution: re-run the same program under the same schedule seed
+        if "fihc_args" in (runs[0][1][0] if runs[0][1] else {}):
+            a = runs[0][1][0]["fihc_args"]
+            args = [x for x in a]
+            args[args.index("--out") + 1] = out
+        else:
+            args = ["--prim", prim, "--consts", json.dumps(h["consts"]), "--exact-seed", str(h["seed"]), "--iters", "1",
+                    "--out", out] + (["--pct"] if h.get("schedule") == "pct" else [])
+        p = subprocess.run([os.path.join(HARNESS, "target", "debug", "fihc")] + args, capture_output=True, text=True, timeout=1800)
+        if p.returncode != 0:
+            print("VIOLATION property=%s replay=%s" % (prop_id, path))
+            print("  the code under test crashed the process (rc %d) while re-running the threaded schedule" % p.returncode)
+            return 1
+        runs2 = read_runs(out)
+        vs, _ = validate_runs(prim, runs2, prop["invs"][prim], os.path.join(work, "obs"), "replay")
+        if vs:
+            print("VIOLATION property=%s replay=%s" % (prop_id, path))
+            print("  invariant %s still fails on the current tree under schedule seed %s" % (vs[0]["inv"], h.get("seed")))
+            return 1
+        print("schedule %s of %s no longer violates %s on the current tree" % (h.get("seed"), path, prop_id))
+        return 0
     try:
         fih(["exec", "--ops", path, "--out", out])
     except CrashError as ce:
